@@ -91,6 +91,9 @@ def run_function_case(task):
                         r['replay_args'] = ma
                         r['replay_case'] = exportable(c, case)
                 # second back end on anything z3 did not discharge
+                if task.get('no_cvc5'):
+                    rec['obligations'].append(r)
+                    continue
                 try:
                     smt2 = smt2_of(ob)
                     res = cvc5_check(smt2)
